@@ -20,6 +20,7 @@ const (
 	c05mOrig uint64 = 1 << iota // e.Next still holds the value it had at the start of the iteration
 	c05mLE                      // origNext(e) <= a clock reading
 	c05mNZ                      // origNext(e) is not the zero time
+	c05mND                      // origNext(e) is NOT due: the zero time, or strictly after a clock reading
 )
 
 const (
@@ -27,6 +28,8 @@ const (
 	c05sPrev
 	c05sNext
 	c05sTwice
+	c05sNotDue // on this path the entry was shown not due (zero Next, or Next strictly after the clock reading)
+	c05sTested // on this path a test on the entry's Next was made
 )
 
 type c05Event struct {
@@ -240,6 +243,9 @@ func (a *c05) edgeFacts(cond ssa.Value, br bool, isOrig func(ssa.Value) bool) (f
 			if isOrig(args[0]) && !br {
 				return c05mNZ, false
 			}
+			if isOrig(args[0]) && br {
+				return c05mND, false
+			}
 			return 0, false
 		}
 		for _, n := range []string{"After", "Before", "Equal"} {
@@ -261,6 +267,17 @@ func (a *c05) edgeFacts(cond ssa.Value, br bool, isOrig func(ssa.Value) bool) (f
 			}
 			if le {
 				return c05mLE, false
+			}
+			// strictly after the clock reading: not due
+			switch n {
+			case "After":
+				if (xn && br) || (yn && !br && false) {
+					return c05mND, false
+				}
+			case "Before":
+				if yn && br {
+					return c05mND, false
+				}
 			}
 			return 0, false
 		}
@@ -348,6 +365,14 @@ func (a *c05) edgeFacts(cond ssa.Value, br bool, isOrig func(ssa.Value) bool) (f
 		}
 		if excluded {
 			return c05mLE, false
+		}
+		// the condition holds ONLY for the sign meaning origNext > now: not due
+		onlyBad := holds(bad) && !holds(0) && !holds(-bad)
+		if !isCompare {
+			onlyBad = onlyBad && holds(bad*(1<<62)) && !holds(-bad*(1<<62)) && op != token.NEQ
+		}
+		if onlyBad {
+			return c05mND, false
 		}
 		return 0, false
 	}
@@ -492,6 +517,94 @@ func (a *c05) analyze(fn *ssa.Function, e ssa.Value, entryFacts uint64) uint64 {
 	setBit := func(st uint64, bit int) uint64 { return mapStates(st, func(s int) int { return s | bit }) }
 	clrBit := func(st uint64, bit int) uint64 { return mapStates(st, func(s int) int { return s &^ bit }) }
 	book := &FlagFlow{Fn: fn, Must: false, Entry: 1 << 0,
+		EdgeTransfer: func(from, to *ssa.BasicBlock, st uint64) uint64 {
+			if len(from.Instrs) == 0 || len(from.Succs) != 2 || from.Succs[0] == from.Succs[1] {
+				return st
+			}
+			ifi, ok := from.Instrs[len(from.Instrs)-1].(*ssa.If)
+			if !ok {
+				return st
+			}
+			add := 0
+			for _, at := range c05ExpandCond(ifi.Cond, from.Succs[0] == to, 0) {
+				if pv, _ := c05CondValue(at.v); pv != nil {
+					if phi, isPhi := pv.(*ssa.Phi); isPhi && len(phi.Edges) == 2 {
+						// a due test computed as a VALUE (`due := a && b`, `skip := a || b`):
+						// on the branch where the value is the short-circuit constant's
+						// opposite the operands are known (c05ExpandCond); on the other
+						// branch EITHER operand decided: the entry is not due if each
+						// alternative on its own shows it
+						_, pol := c05CondValue(at.v)
+						want := at.tv == pol
+						for ci, ed := range phi.Edges {
+							k, isK := ed.(*ssa.Const)
+							if !isK || k.Value == nil || k.Value.Kind() != constant.Bool || constant.BoolVal(k.Value) != want {
+								continue
+							}
+							// value == want through the constant edge (x decided) or through y == want
+							pred := phi.Block().Preds[ci]
+							var xCond ssa.Value
+							xTruth := false
+							if len(pred.Instrs) > 0 {
+								if pif, ok := pred.Instrs[len(pred.Instrs)-1].(*ssa.If); ok && len(pred.Succs) == 2 {
+									xCond, xTruth = pif.Cond, pred.Succs[0] == phi.Block()
+								}
+							}
+							nd := func(c ssa.Value, tv bool) (bool, bool) {
+								got, involved := false, false
+								for _, a2 := range c05ExpandCond(c, tv, 0) {
+									b2, u2 := a.edgeFacts(a2.v, a2.tv, isOrig)
+									if b2 != 0 || u2 {
+										involved = true
+									}
+									if b2&c05mND != 0 {
+										got = true
+									}
+								}
+								return got, involved
+							}
+							if xCond == nil {
+								continue
+							}
+							ndX, invX := nd(xCond, xTruth)
+							ndY, invY := nd(phi.Edges[1-ci], want)
+							if ndX && ndY {
+								add |= c05sNotDue | c05sTested
+							} else if invX || invY {
+								a.unknownCond[fn] = true
+							}
+						}
+					}
+				}
+				bits, unk := a.edgeFacts(at.v, at.tv, isOrig)
+				if bits != 0 || unk {
+					add |= c05sTested
+				}
+				if bits&c05mND != 0 {
+					add |= c05sNotDue
+				}
+				// Next >= now (a dominating or current "not before" test) together with Next != now
+				if a.geAndNe(at, from, isOrig) {
+					add |= c05sNotDue | c05sTested
+				}
+				if call, ok := at.v.(*ssa.Call); ok && !call.Call.IsInvoke() {
+					if h := staticCallee(call); h != nil && a.p.funcSet[h] && h != fn && len(h.Blocks) > 0 {
+						for k, arg := range call.Call.Args {
+							if k < len(h.Params) && a.sameEntry(arg, e) {
+								add |= c05sTested
+								if a.predicateFacts(h, h.Params[k], at.tv, 0)&c05mND != 0 {
+									add |= c05sNotDue
+								}
+							}
+						}
+					}
+				}
+			}
+			if add == 0 {
+				return st
+			}
+			return mapStates(st, func(s int) int { return s | add })
+		},
 		Transfer: func(in ssa.Instruction, st uint64) uint64 {
 			if defInstr != nil && in == defInstr {
 				return 1 << 0
@@ -539,11 +652,11 @@ func (a *c05) analyze(fn *ssa.Function, e ssa.Value, entryFacts uint64) uint64 {
 					}
 					sub := a.analyze(g, g.Params[k], factsAt(in))
 					var out uint64
-					for s := 0; s < 16; s++ {
+					for s := 0; s < 64; s++ {
 						if st&(1<<uint(s)) == 0 {
 							continue
 						}
-						for o := 0; o < 16; o++ {
+						for o := 0; o < 64; o++ {
 							if sub&(1<<uint(o)) != 0 {
 								c := s | o
 								if s&c05sStarted != 0 && o&c05sStarted != 0 {
@@ -595,13 +708,17 @@ func (a *c05) analyze(fn *ssa.Function, e ssa.Value, entryFacts uint64) uint64 {
 			}
 			for _, s := range b.Succs {
 				if !d.Dominates(s) || s == d {
-					ends |= out
+					ends |= book.EdgeTransfer(b, s, out) // including what the branch taken establishes
 				}
 			}
 		}
 		started := false
 		missPrev, missNext, twice := false, false, false
-		for s := 0; s < 16; s++ {
+		skippedDue := false
+		for s := 0; s < 64; s++ {
+			if ends&(1<<uint(s)) != 0 && s&c05sStarted == 0 && s&c05sTested != 0 && s&c05sNotDue == 0 {
+				skippedDue = true
+			}
 			if ends&(1<<uint(s)) == 0 || s&c05sStarted == 0 {
 				continue
 			}
@@ -618,6 +735,15 @@ func (a *c05) analyze(fn *ssa.Function, e ssa.Value, entryFacts uint64) uint64 {
 		}
 		if started {
 			pos := a.pos(defInstr)
+			// completeness of the due test: an entry that was examined and not started
+			// has been shown NOT due (zero Next, or Next strictly after the clock reading)
+			if skippedDue && a.unknownCond[fn] {
+				a.r.Undecide("C05.S4-guard: %s: an examined entry can be left unstarted on a path where it is not shown to be not-due, but a comparison on Entry.Next is in a form the checker does not decode", fname)
+			} else {
+				a.r.Check(!skippedDue, "C05.S4-guard", fname+" an examined entry that is not started is not due", pos,
+					"every path that examines an entry and does not start it has established Next.IsZero() or Next strictly after the clock reading",
+					"an entry can be examined and left unstarted although it is due: on the path that skips it the test only establishes Entry.Next >= now (or nothing), not Entry.Next > now — when the clock lands exactly on the activation instant the timer fires but the job is not started; it starts late, at the next wake-up, and one start is lost if that wake-up already reaches the following instant")
+			}
 			a.r.Check(!twice, "C05.S4-bookkeeping", fname+" one start per entry and wake-up", pos,
 				"no path starts the same entry's job twice within one iteration",
 				"on some path the job of the same entry is started twice in one iteration of the wake-up loop: two starts for one activation instant")
@@ -796,13 +922,35 @@ func (a *c05) predicateFacts(h *ssa.Function, par *ssa.Parameter, tv bool, depth
 			return st | atomFacts(ifi.Cond, from.Succs[0] == to)
 		}}
 	facts.Run()
-	all := uint64(c05mLE | c05mNZ)
+	all := uint64(c05mLE | c05mNZ | c05mND)
 	n := 0
 	facts.AtReturns(func(ret *ssa.Return, st uint64) {
 		if len(ret.Results) != 1 {
 			return
 		}
 		v := c05ResolveLocal(ret.Results[0])
+		// `a && b` / `a || b` returned as a value: judge each way into the phi on its own
+		if phi, ok := v.(*ssa.Phi); ok && phi.Block() == ret.Block() {
+			for i, ed := range phi.Edges {
+				pred := phi.Block().Preds[i]
+				ps, vis := facts.Out(pred)
+				if !vis {
+					continue
+				}
+				ps = facts.EdgeTransfer(pred, phi.Block(), ps)
+				if k, isK := ed.(*ssa.Const); isK && k.Value != nil && k.Value.Kind() == constant.Bool {
+					if constant.BoolVal(k.Value) != tv {
+						continue
+					}
+					n++
+					all &= ps
+					continue
+				}
+				n++
+				all &= ps | atomFacts(ed, tv)
+			}
+			return
+		}
 		if k, ok := v.(*ssa.Const); ok && k.Value != nil && k.Value.Kind() == constant.Bool {
 			if constant.BoolVal(k.Value) != tv {
 				return // this return cannot yield tv
@@ -817,5 +965,49 @@ func (a *c05) predicateFacts(h *ssa.Function, par *ssa.Parameter, tv bool, depth
 	if n == 0 {
 		return 0
 	}
-	return all & (c05mLE | c05mNZ)
+	return all & (c05mLE | c05mNZ | c05mND)
+}
+
+// geAndNe: the atom (taken on an edge leaving block from) and the conditions
+// dominating from establish together origNext >= now and origNext != now,
+// i.e. strictly after: one of them is Equal(...)==false, another one is
+// Before(origNext, now)==false / After(now, origNext)==false.
+func (a *c05) geAndNe(at c05Atom, from *ssa.BasicBlock, isOrig func(ssa.Value) bool) bool {
+	kind := func(v ssa.Value, tv bool) int { // 1: GE, 2: NE
+		call, ok := v.(*ssa.Call)
+		if !ok || call.Call.IsInvoke() || len(call.Call.Args) != 2 || tv {
+			return 0
+		}
+		x, y := call.Call.Args[0], call.Call.Args[1]
+		xo, yo := isOrig(x), isOrig(y)
+		if xo == yo {
+			return 0
+		}
+		other := y
+		if yo {
+			other = x
+		}
+		if !a.clockDerived(other) {
+			return 0
+		}
+		switch {
+		case c05IsTimeMethod(call, "Equal"):
+			return 2
+		case c05IsTimeMethod(call, "Before") && xo, c05IsTimeMethod(call, "After") && yo:
+			return 1
+		}
+		return 0
+	}
+	have := kind(at.v, at.tv)
+	if have == 0 {
+		return false
+	}
+	for _, dc := range domConds(from) {
+		for _, d := range c05ExpandCond(dc.If.Cond, dc.Branch, 0) {
+			if k := kind(d.v, d.tv); k != 0 && k != have {
+				return true
+			}
+		}
+	}
+	return false
 }
